@@ -389,8 +389,11 @@ class Ctx:
             self.side_unknown.append("possible 64-bit overflow in '%s' (%s) in %s" % (what, r, self.cur_func))
 
     def oblige(self, name, cond, info=None):
-        """prove cond under the current path condition"""
+        """prove cond under the current path condition (and the guards of enclosing merged arms)"""
         t0 = time.time()
+        if self.guards:
+            g = z3.And(*self.guards) if len(self.guards) > 1 else self.guards[0]
+            cond = mkb(z3.Implies(g, bz(cond)))
         if isinstance(cond, bool):
             if cond:
                 self.obligations.append(Obligation(name, "unsat", 0.0, info=info, path=list(self.decisions), solver="fold"))
@@ -409,7 +412,8 @@ class Ctx:
         dt = time.time() - t0
         if r == z3.unsat:
             self.obligations.append(Obligation(name, "unsat", dt, info=info, path=list(self.decisions), smt2=smt2))
-            self.pc_add(cond.e)
+            if not self.pure:
+                self.pc_add(cond.e)
             return True
         if r == z3.sat:
             m = self.solver.model()
@@ -422,7 +426,8 @@ class Ctx:
         dt = time.time() - t0
         if r2 == "unsat":
             self.obligations.append(Obligation(name, "unsat", dt, info=info, path=list(self.decisions), solver="cvc5", smt2=smt2))
-            self.pc_add(cond.e)
+            if not self.pure:
+                self.pc_add(cond.e)
             return True
         self.obligations.append(Obligation(name, "unknown", dt, info=info, path=list(self.decisions), smt2=smt2))
         return False
